@@ -1761,8 +1761,9 @@ class PyCdlib:
         for pvd in self.pvds:
             # The add_to_ptr_size() method returns True if the PVD needs
             # additional space in the PTR to store this directory.  We always
-            # add 4 additional extents for that (2 for LE, 2 for BE).
-            if pvd.add_to_ptr_size(path_table_record.PathTableRecord.record_length(ptr.len_di)):
+            # add 4 additional extents for that (2 for LE, 2 for BE).  All
+            # PVDs describe the same path tables, so only count it once.
+            if pvd.add_to_ptr_size(path_table_record.PathTableRecord.record_length(ptr.len_di)) and pvd is self.pvd:
                 num_bytes_to_add += 4 * self.logical_block_size
 
         return num_bytes_to_add
@@ -1782,8 +1783,9 @@ class PyCdlib:
         for pvd in self.pvds:
             # The remove_from_ptr_size() method returns True if the PVD no
             # longer needs the extra extents in the PTR that stored this
-            # directory.  We always remove 4 additional extents for that.
-            if pvd.remove_from_ptr_size(path_table_record.PathTableRecord.record_length(ptr.len_di)):
+            # directory.  We always remove 4 additional extents for that.  All
+            # PVDs describe the same path tables, so only count it once.
+            if pvd.remove_from_ptr_size(path_table_record.PathTableRecord.record_length(ptr.len_di)) and pvd is self.pvd:
                 num_bytes_to_remove += 4 * self.logical_block_size
 
         return num_bytes_to_remove
